@@ -131,11 +131,18 @@ class Harness(object):
                 self.values[k] = v
         self.event("SETTINGS_UPDATED")
 
-    def gcode_raw(self, cmd):
-        """handleGcodeQueuing exactly as OctoPrint's comm layer would call it."""
+    def gcode_raw(self, cmd, source="file"):
+        """handleGcodeQueuing exactly as OctoPrint's comm layer would call it (tags as OctoPrint attaches them)."""
         self._sync_globals()
         gcode, subcode = gcode_and_subcode_for_cmd(cmd)
-        return self.plugin.handleGcodeQueuing(self.comm, "queuing", cmd, None, gcode, subcode=subcode, tags=set())
+        self.lineno = getattr(self, "lineno", 0) + 1
+        if source == "file":
+            tags = {"source:file", "filepos:%d" % (self.lineno * 20), "fileline:%d" % self.lineno}
+        elif source == "none":
+            tags = None
+        else:
+            tags = {"source:" + source}
+        return self.plugin.handleGcodeQueuing(self.comm, "queuing", cmd, None, gcode, subcode=subcode, tags=tags)
 
     def gcode(self, cmd):
         return normalise(cmd, self.gcode_raw(cmd))
